@@ -76,6 +76,8 @@ def build_spec(desc):
     name, kw = desc[0], dict(desc[1])
     if "location" in kw and kw["location"] is not None:
         kw["location"] = tuple(kw["location"])
+    if isinstance(kw.get("reference"), list):
+        kw["reference"] = tuple(kw["reference"])
     for k in ("codon_usage_table", "original_codon_usage_table"):
         if k in kw and kw[k] is not None:
             kw[k] = table_from_desc(kw[k])
@@ -405,11 +407,38 @@ def gen_spec(rng, cls, n):
                 kw["original_codon_usage_table"] = table_to_desc(user_table(rng))
         return (cls, tuple(sorted(kw.items()))), role, seq
     if cls == "UniquifyAllKmers":
-        k = rng.choice([3, 4, 5])
-        kw = {"k": k, "location": rng.choice([None, rloc(rng, n, strands=(0,), minlen=k + 1)]),
+        k = rng.choice([1, 2, 3, 3, 4, 5])
+        kw = {"k": k, "location": rng.choice([None, rloc(rng, n, strands=(0, 1, -1), minlen=k + 1)]),
               "include_reverse_complement": rng.random() < 0.6}
         if kw["location"] is not None and rng.random() < 0.3:
             kw["reference"] = "here"
+        elif rng.random() < 0.3:
+            kw["reference"] = rloc(rng, n, strands=(0, 1, -1), minlen=k + 1)     # any region of the sequence
+        if rng.random() < 0.4:
+            # short sequences on which the specification PASSES (no repeated k-mer): an edit then
+            # typically creates a repeat, which both the full and the localized copy must see
+            irc = kw["include_reverse_complement"]
+            for _ in range(200):
+                m = rng.choice([4, 5, 6, 8, 10]) if k <= 2 else rng.choice([8, 10, 12])
+                cand = rdna(rng, m)
+                seen, ok = set(), True
+                for i in range(m - k + 1):
+                    w = cand[i:i + k]
+                    key = min(w, rcs(w)) if irc else w
+                    if key in seen:
+                        ok = False
+                        break
+                    seen.add(key)
+                if ok:
+                    kw2 = dict(kw)
+                    loc = kw2.get("location")
+                    if loc is not None:
+                        a = rng.randint(0, m - k)
+                        kw2["location"] = (a, rng.randint(a + k, m), loc[2])
+                    if isinstance(kw2.get("reference"), tuple):
+                        a = rng.randint(0, m - k)
+                        kw2["reference"] = (a, rng.randint(a + k, m), kw2["reference"][2])
+                    return (cls, tuple(sorted(kw2.items()))), role, cand
         s = list(seq)
         for _ in range(rng.randint(0, 2)):     # seed repeats
             i, j = rng.randint(0, n - k), rng.randint(0, n - k)
